@@ -252,6 +252,29 @@ fn gen_frame(rng: &mut Rng, density: f64, style: u8) -> Vec<u8> {
             f[s] = 0x1a;
             f[s + 1] = *rng.pick(&[0x31u8, 0x32, 0x33, 0x34]);
         }
+        8 => {
+            // everything after the type byte is zero (a heartbeat look-alike)
+            for b in f.iter_mut().skip(2) {
+                *b = 0;
+            }
+        }
+        9 => {
+            for b in f.iter_mut().skip(2) {
+                *b = 0xff;
+            }
+        }
+        10 => {
+            // a genuine timestamp and signal level, an all-zero payload (Mode A code 0000, ...)
+            for b in f.iter_mut().skip(9) {
+                *b = 0;
+            }
+        }
+        11 => {
+            // timestamp with a remarkable prefix
+            let p = *rng.pick(&[[0xffu8, 0x00], [0x00, 0x00], [0xff, 0xff], [0x00, 0xff]]);
+            f[2] = p[0];
+            f[3] = p[1];
+        }
         7 => {
             // two runs
             for _ in 0..2 {
@@ -491,7 +514,7 @@ fn random_segs(rng: &mut Rng, total: usize) -> Vec<Seg> {
         }
         .min(left);
         let delay_ns = if rng.chance(0.3) {
-            *rng.pick(&[1u64, 1_000, 1_000_000, 250_000_000, 60_000_000_000, 600_000_000_000])
+            *rng.pick(&[1u64, 1_000, 1_000_000, 250_000_000, 60_000_000_000, 600_000_000_000, 1_200_000_000_000, 10_800_000_000_000, 90_000_000_000_000])
         } else {
             0
         };
@@ -803,7 +826,7 @@ impl Scenario for C09 {
         };
         let mut frames = Vec::new();
         for _ in 0..nf {
-            let style = if rng.chance(0.5) { rng.below(8) as u8 } else { 0 };
+            let style = if rng.chance(0.5) { rng.below(12) as u8 } else { 0 };
             frames.push(hex(&gen_frame(rng, density, style)));
         }
         C09Plan {
